@@ -142,6 +142,11 @@ def run(ctx):
     from .C20 import main_paths
     fmain = p.get_function('__main__.main')
     with ctx.obligation('C15.ORDER', '__main__.main', None, fmain.where) as ob:
+        import ast as _ast
+        tries = [n for n in _ast.walk(fmain.node) if isinstance(n, _ast.Try)]
+        ob.require(not tries, 'main() routes around its sinks with a try/except: a handler (e.g. a fall-back to stdout when the file '
+                   'cannot be written) can emit data that did not pass the paranoia filter', '%s:%d' % (
+                       fmain.module.relpath, tries[0].lineno if tries else fmain.lineno))
         for path in main_paths(p):
             if path['kind'] != 'sink':
                 continue
